@@ -502,3 +502,12 @@ from suites import thorough as _th, progenum as _pg
 GROUPS["thorough:enum-assignments"] = _th.only_thorough(_pg.g_f1)
 GROUPS["thorough:enum-augmented-assignments"] = _th.only_thorough(_pg.g_f2)
 GROUPS["thorough:enum-function-signatures"] = _th.only_thorough(_pg.g_f3)
+
+# The converted program evaluates what the TEXT says: the project's own unparser must write
+# arguments, keywords, display elements, operands ... in the order of the tree.  These are the
+# C03 obligations (template = grammar production, children in place) of every expression kind,
+# required here as well.
+from suites import c03 as _c03
+for _k in [k for k in _c03.GROUPS if k.startswith("kind:")]:
+    GROUPS[f"unparser-keeps-the-order-of-the-tree/{_k[5:]}"] = _c03.GROUPS[_k]
+REPLAY.update({k: v for k, v in _c03.REPLAY.items() if k not in REPLAY})
